@@ -38,10 +38,15 @@ init_st = st.one_of(
 )
 
 
+#: division lists handed to snaps() / beats() instead of the default one (observe_at: TimingMap.snaps(offsets, snapper)):
+#: coarser than, finer than and unrelated to the 96ths of the map's own snapper
+TM_DIVS = [(1, 2, 4), (1, 2, 3, 4, 6, 8, 12, 16), (1, 2, 3, 4, 6, 8, 12, 16, 24, 32, 48, 64, 96, 128), (1, 5, 10, 20)]
+
+
 @st.composite
-def grid_frac(draw, max_beats: F):
+def grid_frac(draw, max_beats: F, dens=None):
     """A snap-grid fraction in [0, max_beats) (max_beats > 0) or None if impossible."""
-    den = draw(st.sampled_from(GRID_DENS))
+    den = draw(st.sampled_from(dens or GRID_DENS))
     hi = int((max_beats * den - F(1, 10**9)) // 1) if max_beats is not None else 6 * den
     if max_beats is not None and max_beats * den == int(max_beats * den):
         hi = int(max_beats * den) - 1
@@ -56,6 +61,11 @@ def tempo_case(draw, tier):
     shape = draw(st.sampled_from(["const", "measure"]))
     k = draw(st.integers(1, 8 if big else 5))
     init = draw(init_st)
+    # the snapper handed to snaps()/beats(); tempo changes are placed by the map's own (default) snapper, so with a
+    # custom one they sit on both grids: a query on a change may be counted from the change before it (float noise)
+    snapper = draw(st.sampled_from([None, None, None, 0, 1, 2, 3]))
+    qdens = None if snapper is None else list(TM_DIVS[snapper])
+    gdens = GRID_DENS if snapper is None else [d for d in qdens if d <= 96]
     changes = []  # bpm, met, measure, beat
     gaps = []  # beats (in that change's metronome) until the next change
     measure, beat = 0, F(0)
@@ -66,7 +76,7 @@ def tempo_case(draw, tier):
         if i == k - 1:
             break
         if shape == "const":
-            den = draw(st.sampled_from(GRID_DENS))
+            den = draw(st.sampled_from(gdens))
             adv = F(draw(st.integers(1, 5 * den)), den)
             gaps.append(adv)
             tot = beat + adv
@@ -83,7 +93,7 @@ def tempo_case(draw, tier):
     queries = []
     for _ in range(nq):
         i = draw(st.integers(0, k - 1))
-        d = draw(grid_frac(gaps[i]))
+        d = draw(grid_frac(gaps[i], qdens))
         queries.append([i, frs(d)])
     ndup = draw(st.integers(0, 3))
     for j in range(min(ndup, len(queries))):
@@ -96,7 +106,7 @@ def tempo_case(draw, tier):
             max_size=8,
         )
     )
-    return dict(shape=shape, init=init, changes=changes, queries=list(queries), offgrid=off)
+    return dict(shape=shape, init=init, changes=changes, queries=list(queries), offgrid=off, snapper=snapper)
 
 
 def _mk(case):
@@ -150,7 +160,9 @@ def check_timing(case, ctx):
             ctx.near("offsets", g, e, msg=f"q={p}")
 
     # snaps(): on-grid ms -> the generated position
-    snapper = Snapper()
+    divs = None if case.get("snapper") is None else TM_DIVS[case["snapper"]]
+    snapper = Snapper() if divs is None else ctx.call("Snapper", Snapper, divisions=divs)
+    ctx.label("snapper=" + ("default" if divs is None else "max-division-%d" % max(divs)))
     back = ctx.call("snaps", tm.snaps, exp, snapper)
     if ctx.eq("snaps-len", len(back), len(pos)):
         for s, p in zip(back, pos):
@@ -170,10 +182,21 @@ def check_timing(case, ctx):
         ctx.label("offgrid")
         sn = ctx.call("snaps-offgrid", tm.snaps, [t for _, t in offs], snapper)
         rt = ctx.call("offsets-offgrid", tm.offsets, list(sn))
-        for (i, t), r in zip(offs, rt):
+        for (i, t), r, s in zip(offs, rt, sn):
             tol = 60000.0 / ch[i][0] / 192 * (1 + 1e-9) + 1e-6 * max(1.0, abs(t))
-            if not abs(r - t) <= tol:
+            if (divs is None or max(divs) >= 96) and not abs(r - t) <= tol:
                 ctx.fail("roundtrip-offgrid", f"t={t} back={r} tol={tol} seg={i}")
+            if divs is not None:
+                # the grid in use is the one of the snapper handed over: the position, counted from the active tempo
+                # change, is a fraction no finer than its largest division and at least as near as the nearest n/d, d listed
+                b, m, me, be = ch[i]
+                rel = (s.measure - me) * m + F(s.beat) - be
+                d_exact = (t - ref.times[i]) * b / 60000.0
+                if (rel % 1).denominator > max(divs):
+                    ctx.fail("offgrid-not-on-given-grid", f"t={t} seg={i}: {rel} beats after the change, divisions {divs}")
+                best = min(abs(F(n, d) - F(d_exact % 1)) for d in divs for n in range(d + 1))
+                if abs(float(rel) - d_exact) > float(best) + 1e-6 * max(1.0, abs(d_exact)) + 1e-6 * abs(t) * b / 60000.0:
+                    ctx.fail("offgrid-not-nearest", f"t={t} seg={i}: {rel} beats after the change, exact {d_exact}, nearest listed fraction is {float(best)} away")
 
     # beats(): cumulative beat distance (constant metronome only)
     if case["shape"] == "const":
@@ -194,7 +217,7 @@ def check_timing(case, ctx):
             for t, b in zip(ts, both[1:]):
                 # exact beat distance between t and exp[0], integrating over segments
                 d = _beat_distance(ref, ch, exp[0], t)
-                if abs(float(b - both[0]) - d) > 1 / 192 + 1e-6:
+                if (divs is None or max(divs) >= 96) and abs(float(b - both[0]) - d) > 1 / 192 + 1e-6:
                     ctx.fail("beats-offgrid", f"t={t} got={float(b - both[0])} exp~{d}")
 
     # BpmList.to_timing_map gives the same answers as the map built from snaps
